@@ -314,12 +314,12 @@ fn plugin_pool_seeds() -> Vec<Seed> {
     v
 }
 
-fn repo_prefix_seeds() -> Vec<Seed> {
+fn repo_prefix_seeds(nmsgs: usize) -> Vec<Seed> {
     let mut v = vec![];
     for f in ["lc_ex002.dlt", "lc_ex003.dlt", "lc_ex004.dlt", "lc_ex005.dlt", "lc_ex006.dlt", "ex_1970_1_1.dlt"] {
         let path = format!("/repo/tests/{f}");
         if let Ok(all) = std::fs::read(&path) {
-            let head = &all[..all.len().min(64 * 1024)];
+            let head = &all[..all.len().min(256 * 1024)];
             let mut it = adlt::utils::DltMessageIterator::new(0, head);
             let mut bounds = vec![0usize];
             let mut fields = vec![];
@@ -327,7 +327,7 @@ fn repo_prefix_seeds() -> Vec<Seed> {
             while it.next().is_some() {
                 n += 1;
                 bounds.push(it.bytes_processed);
-                if n >= 40 {
+                if n >= nmsgs {
                     break;
                 }
             }
@@ -417,6 +417,21 @@ fn grammar_cases() -> Vec<(String, &'static str, Vec<u8>)> {
         let mut b = hdr.as_bytes().to_vec();
         b.extend_from_slice(b"\nbase hex timestamps absolute\n0.5 1 36f Rx d 2 01 02\n");
         out.push((format!("asc_hdr:{hdr}"), "asc", b));
+    }
+    // pairs of lines: tag bookkeeping (tag -> apid maps) only shows with >= 2 distinct odd tags in one file
+    let gtags = ["[]", "[ ]", "[  ]", "[\t]", "[a]", "[ a ]", "[a_b_c_d]", "[ABCDE]", "[€]", "[ä ö]"];
+    for t1 in gtags {
+        for t2 in gtags {
+            let b = format!("[2024-03-09 23:01:31.627] [INF] {t1} text a\n[2024-03-09 23:01:31.628] [INF] {t2} text b\n[2024-03-09 23:01:31.629] [INF] {t1} text c\n").into_bytes();
+            out.push((format!("genlog_pair:{t1}{t2}"), "log", b));
+        }
+    }
+    let ltags = ["", " ", "  ", "a", " a ", "a_b_c_d", "ABCDE", "€", "ä ö", "\t"];
+    for t1 in ltags {
+        for t2 in ltags {
+            let b = format!("--------- beginning of main\n01-01 00:00:01.000  100   100 I {t1}: x\n01-01 00:00:02.000  100   100 I {t2}: y\n01-01 00:00:03.000  100   100 I {t1}: z\n").into_bytes();
+            out.push((format!("logcat_pair:{t1}|{t2}"), "txt", b));
+        }
     }
     // generic log
     for d in ["[2024-03-09 23:01:31.627]", "[9999-99-99 99:99:99.999]", "[0000-00-00 00:00:00.000]", "[2024-03-09]", "[]", "2024-03-09 23:01:31.627", "[2024-03-09 23:01:31.627"] {
@@ -653,13 +668,13 @@ impl Prop for C03 {
         Meta {
             id: "C03",
             level: "fault_enumeration",
-            rule: "seed corpus = generated DLT traces covering every verbose argument type, non-verbose, header shapes, every control service id (request/response, non-verbose and verbose, with bodies for the parsed ones), FLST/FLDA/FLFI, network traces, lifecycle shapes + the plugin-specific message pool of the C19 explorer (NonVerbose / SOME/IP incl. segmented NWST-NWCH-NWEN / CAN / Muniic / Rewrite hits and near misses, 82 messages) + the first 40 messages of each repository .dlt example + the repository .asc/.txt/.log examples (prefixes). Mutation operators, each enumerated completely over every seed: (a) every truncation point, (b) every offset x {00,01,7F,80,FF,b^1,b^80}, (b2) every offset x 16-bit {0,FFFF,1} / 32-bit {0,FFFFFFFF} windows, (c) every recorded header/type-info/length/numeric/service-id/timestamp field x boundary table (service ids: all known ids, flag bytes: all 256 values), (d) every ordered pair splice of generated DLT seeds at message boundaries, (e, thorough) every pair of adjacent field corruptions for control and file-transfer seeds, (f) grammar products of text lines (timestamp forms x pid/level/tag/text shapes for logcat, time/channel/id/dlc/data for CAN-ASC incl. header lines, date/level/tag for generic logs). Every case runs the full chain on the real code: reader by extension, header/payload text, argument iteration, to_write, EacStats, lifecycle detection + listing, time sort, 10 filters (matches, match_filters, filter_as_streams), FileTransfer(save)/NonVerbose/SomeIp/CAN/Muniic/Rewrite/Anonymize plugins. Oracle: no panic (overflow checks on), no process death (worker isolation), no allocation request >= 32 MiB whose size the unmutated seeds never request. Non-trivial = at least one message was parsed or a violation occurred.".into(),
+            rule: "seed corpus = generated DLT traces covering every verbose argument type, non-verbose, header shapes, every control service id (request/response, non-verbose and verbose, with bodies for the parsed ones), FLST/FLDA/FLFI, network traces, lifecycle shapes + the plugin-specific message pool of the C19 explorer (NonVerbose / SOME/IP incl. segmented NWST-NWCH-NWEN / CAN / Muniic / Rewrite hits and near misses, 82 messages) + the first 40 (thorough: 200) messages of each repository .dlt example + the repository .asc/.txt/.log examples (prefixes). Mutation operators, each enumerated completely over every seed: (a) every truncation point, (b) every offset x {00,01,7F,80,FF,b^1,b^80}, (b2) every offset x 16-bit {0,FFFF,1} / 32-bit {0,FFFFFFFF} windows, (c) every recorded header/type-info/length/numeric/service-id/timestamp field x boundary table (service ids: all known ids, flag bytes: all 256 values), (d) every ordered pair splice of generated DLT seeds at message boundaries, (e, thorough) every pair of adjacent field corruptions for control and file-transfer seeds, (b3) text seeds: every offset replaced by a 3-byte UTF-8 character, (f) grammar products of text lines (incl. all ordered pairs of 10 odd tags for logcat and generic logs) (timestamp forms x pid/level/tag/text shapes for logcat, time/channel/id/dlc/data for CAN-ASC incl. header lines, date/level/tag for generic logs). Every case runs the full chain on the real code: reader by extension, header/payload text, argument iteration, to_write, EacStats, lifecycle detection + listing, time sort, 10 filters (matches, match_filters, filter_as_streams), FileTransfer(save)/NonVerbose/SomeIp/CAN/Muniic/Rewrite/Anonymize plugins. Oracle: no panic (overflow checks on), no process death (worker isolation), no allocation request >= 32 MiB whose size the unmutated seeds never request. Non-trivial = at least one message was parsed or a violation occurred.".into(),
             assumptions: vec!["crash-freedom is decided for the enumerated neighbourhood, not for all byte strings".into(),
                 "FIBEX-configured plugins are re-created every 300 cases (their state carries over within such a window); a panic is re-checked on the single case by replay".into(),
                 "serial-framed DLT is covered through the byte operators on seeds re-framed with DLS markers".into()],
             budget_s: (45, 1500),
             workers: 0,
-            required_landmarks: vec!["parsed_messages", "multi_lifecycle", "op_truncate", "op_subst", "op_field", "op_splice", "op_grammar", "op_wide_subst", "fmt_asc", "fmt_txt", "fmt_log", "fmt_serial"],
+            required_landmarks: vec!["parsed_messages", "multi_lifecycle", "op_truncate", "op_subst", "op_field", "op_splice", "op_grammar", "op_wide_subst", "op_multibyte", "fmt_asc", "fmt_txt", "fmt_log", "fmt_serial"],
         }
     }
     fn careful(&self) -> bool {
@@ -671,7 +686,7 @@ impl Prop for C03 {
         let mut gen = dlt_seeds();
         let pool_seeds = plugin_pool_seeds();
         gen.extend(pool_seeds.iter().cloned());
-        let repo = repo_prefix_seeds();
+        let repo = repo_prefix_seeds(if thorough { 200 } else { 40 });
         let text = text_seeds();
         // serial variants of two generated seeds: every storage header replaced by the serial marker
         let mut serial: Vec<Seed> = vec![];
@@ -765,6 +780,33 @@ impl Prop for C03 {
         if !done {
             return;
         }
+        // (b3) text formats: every offset replaced by a multi-byte UTF-8 character (the result stays valid UTF-8)
+        ctx.begin_family("multibyte", "text seeds: every offset replaced by a 3-byte UTF-8 character (byte offsets vs char boundaries)");
+        'm: for s in text.iter() {
+            if !s.bytes.is_ascii() {
+                continue;
+            }
+            for off in 0..s.bytes.len() {
+                if s.bytes[off] == b'\n' {
+                    continue;
+                }
+                if ctx.mine() {
+                    let mut b = s.bytes[..off].to_vec();
+                    b.extend_from_slice("\u{20ac}".as_bytes());
+                    b.extend_from_slice(&s.bytes[off + 1..]);
+                    ctx.landmark("op_multibyte");
+                    judge(ctx, &mut sh, &s.name, s.ext, &b, &|| json!({"op": "multibyte", "seed": s.name, "offset": off, "ext": s.ext, "bytes_hex": hexs(&b)}));
+                    check_time!(done);
+                    if !done {
+                        break 'm;
+                    }
+                }
+            }
+        }
+        ctx.end_family(done);
+        if !done {
+            return;
+        }
         // (d) splices of generated seeds at message boundaries
         ctx.begin_family("splice", "every ordered pair of generated DLT seeds x every (prefix boundary, suffix boundary)");
         'd: for a in gen.iter() {
@@ -794,9 +836,9 @@ impl Prop for C03 {
             return;
         }
         // (b) byte substitution
-        ctx.begin_family("subst", "every offset x {00,01,7F,80,FF,b^1,b^80} of every seed (repo prefixes: thorough only beyond the first 1500 bytes)");
+        ctx.begin_family("subst", "every offset x {00,01,7F,80,FF,b^1,b^80} of every seed (repo prefixes: thorough only beyond the first 800 bytes)");
         'b: for s in gen.iter().chain(serial.iter()).chain(text.iter()).chain(repo.iter()) {
-            let limit = if s.name.starts_with("repo:") && s.ext == "dlt" && !thorough { 1500.min(s.bytes.len()) } else { s.bytes.len() };
+            let limit = if s.name.starts_with("repo:") && s.ext == "dlt" && !thorough { 800.min(s.bytes.len()) } else { s.bytes.len() };
             for off in 0..limit {
                 let orig = s.bytes[off];
                 let mut vals: Vec<u8> = SUBST.to_vec();
@@ -855,6 +897,9 @@ impl Prop for C03 {
             }
         }
         ctx.end_family(done);
+        if !done {
+            return;
+        }
         if !done || !thorough {
             return;
         }
@@ -893,7 +938,7 @@ impl Prop for C03 {
         let mut sh = Shared { chain: Chain::new(), baseline: vec![] };
         // baseline: all seeds
         let _ = alloc::take_huge_sizes();
-        for s in dlt_seeds().iter().chain(repo_prefix_seeds().iter()).chain(text_seeds().iter()) {
+        for s in dlt_seeds().iter().chain(repo_prefix_seeds(40).iter()).chain(text_seeds().iter()) {
             let _ = sh.chain.run(s.ext, &s.bytes);
         }
         sh.baseline = alloc::take_huge_sizes();
